@@ -9,6 +9,8 @@ C  the statement on the real code: exact-rational boundary spec for `_fixed_chan
    segmentations for `_poisson_changepoints`; every deviation classified by mechanism.
 """
 
+from fractions import Fraction
+
 import numpy as np
 
 from .. import changepoints_corr as cc, common
@@ -38,7 +40,11 @@ def enum_specs(ctx):
     if ctx.tier == "quick":
         return [dict(lens=[1, 2, 3], calpha=FULL_C, oalpha=FULL_O, epochs=EPOCHS, pens=[0.0, 2.0], minima=MINIMA),
                 dict(lens=[4], calpha=[0, 2, 5], oalpha=[1, 4], epochs=EPOCHS, pens=[0.0, 2.0], minima=MINIMA)]
-    return [dict(lens=[1, 2, 3, 4], calpha=FULL_C, oalpha=FULL_O, epochs=EPOCHS, pens=[0.0, 1.0, 2.0], minima=MINIMA),
+    # thorough: the full alphabet up to length 3 with three penalties, length 4 with the full count alphabet and offsets
+    # {1,2,4} (the full offset alphabet there is 331 776 vectors x 8 option sets: outside the 20 min budget), lengths 5-6
+    # over the reduced alphabets
+    return [dict(lens=[1, 2, 3], calpha=FULL_C, oalpha=FULL_O, epochs=EPOCHS, pens=[0.0, 1.0, 2.0], minima=MINIMA),
+            dict(lens=[4], calpha=FULL_C, oalpha=[1, 2, 4], epochs=EPOCHS, pens=[0.0, 2.0], minima=MINIMA),
             dict(lens=[5, 6], calpha=[0, 2, 5], oalpha=[1, 4], epochs=EPOCHS, pens=[0.0, 2.0], minima=MINIMA)]
 
 
@@ -75,13 +81,27 @@ def check_fixed(res, stats, counts, epochs, got, model, model_q=None):
         res.corr_failures.append(Violation(
             "fixed-exact-model-differs-from-spec", f"exact model {model_q} vs statement {want} on {list(counts)}, {epochs}", replay, "B"))
     if got != want:
-        if any(ties):
+        # finding F13 precisely: an exact tie Y[i]/Y[n] == k/epochs (in exact rationals) that rounding breaks - the float
+        # fraction of the tied index ends up above the float grid value k*(1/epochs) - so that the tied indices are
+        # excluded and the boundary is the last index with Y[i]/Y[n] < k/epochs.  A tie that the floats represent exactly
+        # must be honoured: anything else is `fixed-boundary-wrong`.
+        explained = len(got) == len(want)
+        Yf = np.append(0.0, np.cumsum(np.asarray(counts, dtype=float)))
+        Zf = Yf / Yf[-1]
+        for k in range(1, epochs):
+            if not explained:
+                break
+            if got[k] != want[k]:
+                broken = bool(Zf[want[k]] > float(k) * (1.0 / epochs))
+                explained = bool(ties[k - 1]) and broken and got[k] == cc.spec_fixed_strict(counts, epochs, k)
+        explained = explained and got[0] == want[0] and got[-1] == want[-1]
+        if explained:
             stats["fixed_exact_tie_deviation"] += 1
             res.violations.append(Violation(
                 "fixed-boundary-below-spec-on-exact-tie",
                 f"_fixed_changepoints({list(counts)}, {epochs}) = {got}, statement gives {want}: the grid value k*(1/epochs) "
                 f"rounds below the exact fraction", replay))
-        elif near:
+        elif near and not any(ties):
             stats["fixed_near_tie_rounding"] += 1        # rounding of the cumulative sums themselves: within float tolerance
         else:
             res.violations.append(Violation(
